@@ -178,6 +178,17 @@ func replaySched(path string) int {
 			continue
 		}
 		_, f := runOnce(sc, sched, nil)
+		if f != nil && f.Kind == "harness-nondeterminism" {
+			// the recorded schedule is not a schedule of this tree (its scheduling points differ from the tree the
+			// violation was found on): explore the whole scenario instead
+			fmt.Println("replay: the recorded schedule is not feasible on this tree; exploring the scenario exhaustively instead")
+			st := explore(sc, p.bounds[len(p.bounds)-1], p.caps[len(p.caps)-1], p.outcome)
+			f = st.Finding
+			if f == nil {
+				fmt.Printf("replay: property %s holds on all %d schedules of scenario [%s]\n", id, st.Execs, sc.Name)
+				return 0
+			}
+		}
 		if f == nil {
 			fmt.Printf("replay: property %s holds on this schedule\n", id)
 			return 0
